@@ -229,4 +229,88 @@ def bestOf [LE E] [DecidableLE E] (energy : M → E) : List M → Option M
   | [] => none
   | m :: ms => some (ms.foldl (fun b x => if energy x ≤ energy b then x else b) m)
 
+/-! ### ensembles: the members' `_live` flag and the deferred decoration
+
+The members of an ensemble are whole solvers.  `solver.Step()` / `solver.Solve()` (abstract_solver.py l.1062-1113,
+l.1115-1144) begin with `_bootstrap_objective` (l.928-942): a solver whose `_live` flag is off RE-DECORATES its
+objective - and a decoration is not neutral: `NelderMeadSimplexSolver._decorate_objective` (scipy_optimize.py
+l.201-208) rebuilds the simplex around the best vertex under strict ranges once `generations > 0`, the abstract one
+(abstract_solver.py l.909-913) clips the population and draws random numbers.  `Finalize` (l.1018-1021) switches the
+flag off when a `Step` stops, so a FINISHED member is not live; the mapped member functions of the ensemble
+(`_step` abstract_ensemble_solver.py l.653-656, `_solve` l.779-784) switch the flag on around the member call
+(`_term = (solver._live is False) and solver.Terminated()`) - that, and the stop test `Step` makes BEFORE it
+iterates (l.1097-1104), is what leaves a finished member alone in step-wise mode.  Modelled as it is; the member's
+algorithm is a parameter. -/
+
+variable {S : Type}
+
+/-- what the ensemble's member calls use of a nested solver with algorithm state `S` -/
+structure MAlg (S : Type) where
+  /-- what `_decorate_objective` does to the state (population clipped / simplex rebuilt / random draws) -/
+  dec : S → S
+  /-- `_Step` -/
+  iter : S → S
+  /-- what `Finalize` does besides `_live = False` (Powell appends a step record, scipy_optimize.py l.748-756) -/
+  fin : S → S
+  /-- `Terminated()`: limits, signal, termination condition -/
+  term : S → Bool
+  /-- `len(self._stepmon) > 0` -/
+  started : S → Bool
+
+/-- a member between two calls; `ndec` / `niter` are ghosts (how often the objective was decorated / `_Step` ran) -/
+structure Mem (S : Type) where
+  st : S
+  live : Bool
+  ndec : Nat := 0
+  niter : Nat := 0
+  deriving DecidableEq, Repr
+
+/-- `_bootstrap_objective(None)` (l.935-942): the stored objective when live, else a new decoration -/
+def bootstrapM (a : MAlg S) (m : Mem S) : Mem S :=
+  if m.live = true then m else { m with st := a.dec m.st, live := true, ndec := m.ndec + 1 }
+
+/-- `Step()` (l.1094-1113): bootstrap; stop test when the step monitor is not empty; `_Step`; `Finalize` when
+    terminated; the returned message (its truthiness) is read AFTER `Finalize` -/
+def mStep (a : MAlg S) (m : Mem S) : Mem S × Bool :=
+  if (a.started (bootstrapM a m).st && a.term (bootstrapM a m).st) = true then (bootstrapM a m, true)
+  else if a.term (a.iter (bootstrapM a m).st) = true then
+    ({ bootstrapM a m with st := a.fin (a.iter (bootstrapM a m).st), live := false, niter := (bootstrapM a m).niter + 1 },
+      a.term (a.fin (a.iter (bootstrapM a m).st)))
+  else ({ bootstrapM a m with st := a.iter (bootstrapM a m).st, niter := (bootstrapM a m).niter + 1 }, false)
+
+/-- `_Solve` (l.1128-1132): `while not stop: stop = self.Step()`, at most `fuel` calls; the flag says whether a
+    message came back -/
+def mSolve (a : MAlg S) : Nat → Mem S → Mem S × Bool
+  | 0, m => (m, false)
+  | n + 1, m => if (mStep a m).2 = true then ((mStep a m).1, true) else mSolve a n (mStep a m).1
+
+/-- the `_live` toggle of `_step` / `_solve` around a member call -/
+def toggled (a : MAlg S) (call : Mem S → Mem S × Bool) (m : Mem S) : Mem S × Bool :=
+  if (!m.live && a.term m.st) = true then
+    ({ (call { m with live := true }).1 with live := false }, (call { m with live := true }).2)
+  else call m
+
+/-- `_step(solver, None)` (abstract_ensemble_solver.py l.653-656): one mapped member call of an ensemble `Step` -/
+def ensMemberStep (a : MAlg S) (m : Mem S) : Mem S := (toggled a (mStep a) m).1
+
+/-- `_solve(solver, None)` (l.779-784): one mapped member call of a run-to-completion ensemble `Solve` -/
+def ensMemberSolve (a : MAlg S) (fuel : Nat) (m : Mem S) : Mem S × Bool := toggled a (mSolve a fuel) m
+
+/-- NOT the code: `_step` without the toggle (`solver.Step()` alone).  Only used for the witness that shows what
+    the toggle is there for (Props/C07 `ens_untoggled_witness`). -/
+def ensMemberStepBare (a : MAlg S) (m : Mem S) : Mem S := (mStep a m).1
+
+/-- one ensemble `_Step` (l.608-682): the map applies `_step` to every member, results stored by index -/
+def ensStepL (a : MAlg S) (ms : List (Mem S)) : List (Mem S) := ms.map (ensMemberStep a)
+
+/-- the run-to-completion ensemble `_Solve` (l.717-809): the map applies `_solve` to every member -/
+def ensSolveL (a : MAlg S) (fuel : Nat) (ms : List (Mem S)) : List (Mem S) :=
+  ms.map fun m => (ensMemberSolve a fuel m).1
+
+/-- the ensemble's `Terminated(all=None)` (l.331-333): no member reports `False` -/
+def allTerm (a : MAlg S) (ms : List (Mem S)) : Bool := ms.all fun m => a.term m.st
+
+/-- a member that has stopped: finalized, terminated, with a step record -/
+def Finished (a : MAlg S) (m : Mem S) : Prop := m.live = false ∧ a.term m.st = true ∧ a.started m.st = true
+
 end MysticVerif.Sched
